@@ -367,12 +367,7 @@ func (r *runner) eventFor(op Op) channel.AdjudicatorEvent {
 }
 
 // step executes one valid operation against the watcher and checks it.
-func (r *runner) step(op Op) (*expect, *h.Failure) {
-	e, fl := r.step1(op)
-	return e, fl
-}
-
-func (r *runner) step1(op Op) (e *expect, _ *h.Failure) {
+func (r *runner) step(op Op) (e *expect, _ *h.Failure) {
 	ctx := context.Background()
 	var injected channel.AdjudicatorEvent
 	if op.K == "reg" || op.K == "prog" || op.K == "conc" {
@@ -577,7 +572,7 @@ var commonAssumptions = []string{
 
 // runParallel executes the cases produced by produce on `workers` watcher
 // instances and reports every outcome from the test goroutine.
-func runParallel(t *testing.T, rec *h.Rec, workers int, produce func(emit func(Case) bool)) (complete bool) {
+func runParallel(t *testing.T, rec *h.Rec, workers int, classes map[string]int, produce func(emit func(Case) bool)) (complete bool) {
 	type result struct {
 		c Case
 		o *h.Outcome
@@ -653,6 +648,9 @@ func runParallel(t *testing.T, rec *h.Rec, workers int, produce func(emit func(C
 			rec.Report(t, c, o)
 			return false
 		}
+		for _, cl := range r.o.Classes {
+			classes[cl]++
+		}
 		rec.Report(t, r.c, r.o)
 	}
 	return <-producerDone
@@ -718,7 +716,8 @@ func TestEnumerate(t *testing.T) {
 	shard, nshards := h.Shard()
 	g0 := runtime.NumGoroutine()
 	total := 0
-	complete := runParallel(t, rec, workers, func(emit func(Case) bool) {
+	classes := map[string]int{}
+	complete := runParallel(t, rec, workers, classes, func(emit func(Case) bool) {
 		idx := 0
 		// by increasing length: the first failure found is a shortest one
 		for l := 0; l <= maxLen; l++ {
@@ -735,12 +734,28 @@ func TestEnumerate(t *testing.T) {
 			}
 		}
 	})
-	rec.Extra("enum_max_len", maxLen)
+	rec.Extra("enum_max_len", strconv.Itoa(maxLen)) // a string: the driver sums numeric extras over shards
 	rec.AddExtra("enum_histories", total)
 	time.Sleep(20 * time.Millisecond)
 	rec.AddExtra("goroutines_left_enum", runtime.NumGoroutine()-g0)
 	if complete && !rec.Failed() {
 		rec.SetExhaustive(true)
+		// anti-vacuity: the classes the property names must have been reached
+		// in this shard (a failure here is a harness problem, not a violation)
+		if maxLen >= 5 {
+			for _, cl := range []string{
+				"reg:parent:refute", "reg:sub:refute", "reg:parent:nothing-newer-known", "reg:sub:nothing-newer-known",
+				"reg:parent:already-registered-newer", "refute:with-watched-sub", "refute:with-archived-sub", "refute:two-locked",
+				"reg:relayed", "reg:not-relayed-again", "prog-relayed", "conc-relayed",
+				"stopp:refused", "stopp:refused-again", "stopp:succeeds", "stopp:succeeds-after-refusal",
+				"after-refused-stop:reg", "after-refused-stop:prog", "after-refused-stop:pubp", "stopsub:archived", "stopsub:not-locked",
+			} {
+				if classes[cl] == 0 {
+					rec.Flush()
+					t.Fatalf("harness: class %q was never produced by the enumeration (shard %d/%d, length %d)", cl, shard, nshards, maxLen)
+				}
+			}
+		}
 	}
 }
 
